@@ -22,6 +22,10 @@ comprehension instead of an append loop in the backend) broke the extraction.  N
     the tuples and every number of rounds (1, 2, fixed point) is a CANDIDATE member of the model family; a Python
     rendering of the model's `keepOn` predicts the node set of every partition for every candidate; exactly one
     candidate must predict every observed partition                                                -> the rest
+ 3b. the model carries a delegation entry as the text the ARM has; the real code decodes it into Labels / Capacities
+    objects (helper module fim/slivers/capacities_labels.py) and encodes it again: `probe_entries` partitions and re-keys
+    a probe ARM whose entries span the value shapes (list-valued labels not in sorted order / with repeats / of one
+    element / empty, '' values, capacities; single, pool definition, pool reference) and demands the same JSON value
  4. best-effort static cross-check: every get_first_and_second_neighbor call in abc_arm.py whose arguments are
     constants must have been exercised by the probes (otherwise the probes are blind to it).
 
@@ -336,6 +340,67 @@ def probe_closure(drops_k, stitch_prop, stitch_true):
 
 
 # ---------------------------------------------------------------------------
+# 3b. delegation entries are opaque to the partition: the model (Model/Arm.lean) carries an entry as the text it has on the ARM, the
+# real code decodes it (Delegations.from_json -> Labels / Capacities objects) and encodes it again. Probe that this is the identity
+# on JSON values over the value shapes of an entry: scalar and list-valued labels (lists not in sorted order, with repeats, of one
+# element, empty; '' values), capacities, single entries, pool definitions and references - in the partition and after re-keying.
+
+_ENTRY_DETAILS = [
+    ("l", {"vlan_range": "1-100", "local_name": "p1"}), ("l", {"vlan_range": ["3000-3100", "1000-1100"]}),
+    ("l", {"vlan_range": ["200-300", "100-150", "200-300"], "mac": "00:00:00:00:02:01"}),
+    ("l", {"ipv4_range": ["192.168.2.1-192.168.2.10", "192.168.1.1-192.168.1.10"], "ipv6_range": ["2001:db8::10-2001:db8::20", "2001:db8::1-2001:db8::5"]}),
+    ("l", {"mac": ["0C:42:A1:EA:C7:61", "0C:42:A1:EA:C7:60"], "local_name": ["p2", "p1", "p2"], "bdf": ["0000:41:00.1", "0000:41:00.0"]}),
+    ("l", {"ipv4_subnet": ["192.168.2.0/24", "192.168.1.0/24"], "ipv6_subnet": ["2001:db8:1::/64", "2001:db8::/64"], "asn": ["65001", "65000"], "vlan": ["200", "100"]}),
+    ("l", {"ipv4": ["192.168.1.2", "192.168.1.1"], "ipv6": ["2001:db8::2", "2001:db8::1"], "numa": ["1", "0", "1"], "inner_vlan": ["30", "20"]}),
+    ("l", {"vlan_range": ["7-9"], "vlan": ["7"]}), ("l", {"vlan_range": [], "local_name": ""}), ("l", {"ipv6": "", "instance": "", "device_name": ["", ""]}),
+    ("l", {"local_type": ["t2", "t1"], "instance_parent": ["b", "a"], "instance": ["i2", "i1"]}),
+    ("c", {"unit": 1}), ("c", {"core": 32, "ram": 128, "disk": 100}), ("c", {"cpu": 2, "burst_size": 8, "mtu": 9000, "bw": 25}),
+]
+
+
+def probe_entries():
+    """-> number of entries checked; ExtractionError when an entry is not carried as the JSON value the ARM has"""
+    from fim.graph.resources.networkx_arm import NetworkXARMGraph
+    from fim.graph.resources.networkx_adm import NetworkXADMGraph
+    nodes, edges, want = [["sv", NS, {}, None, None], ["ow", NN, {}, None, None]], [["sv", "ow", "has"]], {}
+    for k, (t, det) in enumerate(_ENTRY_DETAILS):
+        i, f = "e%d" % k, "labels" if t == "l" else "capacities"
+        d, o = ("d1", "d2") if k % 2 else ("d2", "d1")
+        ent = {d: {"pool_id": "_", f: det}, o: {"pool_id": "pl%d" % k, f: det}}
+        nodes.append([i, CP, {}, ent if t == "l" else None, ent if t == "c" else None])
+        nodes.append([i + "r", CP, {}, {o: {"pool": "pl%d" % k}} if t == "l" else None, {o: {"pool": "pl%d" % k}} if t == "c" else None])
+        edges += [["sv", i, "connects"], ["sv", i + "r", "connects"]]
+        want[i], want[i + "r"] = (t, ent), (t, {o: {"pool": "pl%d" % k}})
+    w = {"nodes": nodes, "edges": edges}
+    n = 0
+    try:
+        arm = NetworkXARMGraph(graph=_load(w))
+        adms = arm.generate_adms(delegation_guids={"d1": "probe-adm-d1", "d2": "probe-adm-d2"})
+        for d, adm in sorted(adms.items()):
+            for stage in ("partition", "re-keyed partition"):
+                key = d if stage == "partition" else "real-" + d
+                if stage != "partition":
+                    NetworkXADMGraph(graph_id=adm.graph_id, importer=adm.importer).rewrite_delegations(real_adm_id=key)
+                for i, (t, ent) in want.items():
+                    if d not in ent:
+                        continue
+                    _, props = adm.get_node_properties(node_id=i)
+                    got = props.get("LabelDelegations" if t == "l" else "CapacityDelegations")
+                    got = json.loads(got) if isinstance(got, str) and got != "None" else got
+                    if got != {key: ent[d]}:
+                        raise ExtractionError("the %s of %s does not carry the delegation entry of the model as it is (JSON value): "
+                                              "model %s, %s %s" % (stage, d, json.dumps(ent[d]), stage, json.dumps(got)))
+                    n += 1
+    except ExtractionError:
+        raise
+    except Exception as e:
+        raise ExtractionError("%s (%s) while partitioning / re-keying the entry probe ARM" % (type(e).__name__, str(e)[:160]))
+    finally:
+        _fresh_store()
+    return n
+
+
+# ---------------------------------------------------------------------------
 # 4. static cross-check
 
 
@@ -377,6 +442,7 @@ def extract():
         drops_k, n2 = probe_two_hop()
         stitch_prop, stitch_true = probe_stitch()
         cand, vocab, n3 = probe_closure(drops_k, stitch_prop, stitch_true)
+        n4 = probe_entries()
     finally:
         _fresh_store()
     st, dyn = static_traces()
@@ -387,7 +453,7 @@ def extract():
     return {"link_traces": cand["link"], "owner_traces": cand["owner"], "link_rounds": cand["rounds"], "cp_class": cand["cp_class"],
             "drops_k": drops_k, "stitch_prop": stitch_prop, "stitch_true": stitch_true,
             "ldel": t2p[DelegationType.LABEL], "cdel": t2p[DelegationType.CAPACITY], "none": C.NEO4j_NONE,
-            "probes": {"two_hop_queries": n2, "closure_arms": n3, "static_traces": len(st), "static_unresolved": dyn}}
+            "probes": {"two_hop_queries": n2, "closure_arms": n3, "entries_verbatim": n4, "static_traces": len(st), "static_unresolved": dyn}}
 
 
 def _traces(ts):
